@@ -90,11 +90,22 @@ class ScopeContext:
 
         except BaseException as exc:
             # scope won't be entered - leave the task group which was already entered
-            await self._task_group_context.__aexit__(
-                exc_type=type(exc),
-                exc_val=exc,
-                exc_tb=exc.__traceback__,
-            )
+            try:
+                await self._task_group_context.__aexit__(
+                    exc_type=type(exc),
+                    exc_val=exc,
+                    exc_tb=exc.__traceback__,
+                )
+
+            finally:
+                # and finish its metrics - those were already registered within the enclosing scope
+                self._metrics_context.__enter__()
+                self._metrics_context.__exit__(
+                    exc_type=type(exc),
+                    exc_val=exc,
+                    exc_tb=exc.__traceback__,
+                )
+
             raise
 
         self._state_context.__enter__()
